@@ -21,17 +21,17 @@ B_STYLE, B_NAME, B_HREF, B_SRC, B_BORDER, B_WIDTH, B_HEIGHT, B_HTTPEQUIV, B_CONT
     B_CHARSET = range(80, 96)
 (G_CONTENTTYPE, G_TEXTHTML, G_TEXTHTMLCS, G_FONTFAMILY, G_FONTSIZE, G_PX, G_PAGE, G_PAGES, G_COMMA, G_HASHMARK, G_OCRPAGE, G_OCRBLOCK,
  G_OCRLINE, G_OCRXWORD, G_HOCRHTMLATTRS, G_HOCRMETA1, G_HOCRMETA2, G_HOCRMETA3, G_HOCRCOMMENT1, G_HOCRCOMMENT2, G_FONTQ, G_QFONTSIZE,
- G_SEMISP, G_XFONT, G_XFSIZE) = range(300, 325)
+ G_SEMISP, G_XFONT, G_XFSIZE) = range(1800000, 1800025)
 WORDS = {70: "html", 71: "head", 72: "meta", 73: "body", 74: "div", 75: "span", 76: "a", 77: "br", 78: "img", 79: "title",
          80: "style", 81: "name", 82: "href", 83: "src", 84: "border", 85: "width", 86: "height", 87: "http-equiv", 88: "content",
          89: "class", 90: "id", 91: "title", 92: "xmlns", 93: "xml:lang", 94: "lang", 95: "charset",
-         300: "Content-Type", 301: "text/html", 302: "text/html; charset=", 303: "font-family: ", 304: "; font-size:", 305: "px",
-         306: "Page ", 307: "Page: ", 308: ", ", 309: "#", 310: "ocr_page", 311: "ocr_block", 312: "ocr_line", 313: "ocrx_word",
-         314: "xmlns='http://www.w3.org/1999/xhtml' xml:lang='en' lang='en'",
-         315: "http-equiv='Content-Type' content='text/html;charset=utf-8'", 316: "name='ocr-system' content='pdfminer.six HOCR Converter'",
-         317: "name='ocr-capabilities' content='ocr_page ocr_block ocr_line ocrx_word'",
-         318: "<!-- comment in the following line to debug -->", 319: "<!--script src='https://unpkg.com/hocrjs'></script-->",
-         320: 'font:"', 321: '"; font-size:', 322: "; ", 323: "; x_font ", 324: "; x_fsize "}
+         1800000: "Content-Type", 1800001: "text/html", 1800002: "text/html; charset=", 1800003: "font-family: ", 1800004: "; font-size:", 1800005: "px",
+         1800006: "Page ", 1800007: "Page: ", 1800008: ", ", 1800009: "#", 1800010: "ocr_page", 1800011: "ocr_block", 1800012: "ocr_line", 1800013: "ocrx_word",
+         1800014: "xmlns='http://www.w3.org/1999/xhtml' xml:lang='en' lang='en'",
+         1800015: "http-equiv='Content-Type' content='text/html;charset=utf-8'", 1800016: "name='ocr-system' content='pdfminer.six HOCR Converter'",
+         1800017: "name='ocr-capabilities' content='ocr_page ocr_block ocr_line ocrx_word'",
+         1800018: "<!-- comment in the following line to debug -->", 1800019: "<!--script src='https://unpkg.com/hocrjs'></script-->",
+         1800020: 'font:"', 1800021: '"; font-size:', 1800022: "; ", 1800023: "; x_font ", 1800024: "; x_fsize "}
 H_RECT, H_DIVSTYLE, H_TOP, H_TEXTSTYLE, H_FONTPX, H_BBOX, H_WSIZE, H_WBBOX, H_WSTYLE = range(9)
 HTML_DEVS = ["HtmlFontRaw", "HtmlSpanLeak"]
 HOCR_DEVS = ["HocrTextRaw", "HocrFontRaw", "HocrWordLost", "HocrPending"]
